@@ -72,7 +72,8 @@ class EnvModel(dict):
 class Ctx:
     def __init__(self):
         self.timeout = 10000  # ms per query (per backend attempt)
-        self.decide_timeout = 4000  # ms for branch-feasibility queries (unknown = treated as feasible)
+        self.decide_timeout = 4000
+        self.feq_tol = None  # tolerance for == / != in float evaluation (set only while screening candidate models)  # ms for branch-feasibility queries (unknown = treated as feasible)
         self.stats = Stats()
         self.max_decisions = 400
         self.hard_reset()
@@ -394,10 +395,17 @@ class Ctx:
         elif k == z3.Z3_OP_GT:
             r = ev(ch[0]) > ev(ch[1])
         elif k == z3.Z3_OP_EQ:
-            r = ev(ch[0]) == ev(ch[1])
+            a, b = ev(ch[0]), ev(ch[1])
+            if self.feq_tol and isinstance(a, float) and isinstance(b, float):
+                r = abs(a - b) <= self.feq_tol * (1 + abs(a) + abs(b))
+            else:
+                r = a == b
         elif k == z3.Z3_OP_DISTINCT:
             vals = [ev(c) for c in ch]
-            r = len(set(vals)) == len(vals)
+            if self.feq_tol and len(vals) == 2 and all(isinstance(v, float) for v in vals):
+                r = abs(vals[0] - vals[1]) > self.feq_tol * (1 + abs(vals[0]) + abs(vals[1]))
+            else:
+                r = len(set(vals)) == len(vals)
         elif k == z3.Z3_OP_AND:
             r = all(ev(c) for c in ch)
         elif k == z3.Z3_OP_OR:
@@ -803,10 +811,12 @@ def explore(fn, max_paths=500, verbose=False, on_path=None, seeds=()):
     Returns list of Path.  If on_path is given it is called right after each path, while the
     definitions of that path are current.  seeds: concrete input environments whose paths are explored first."""
     stack = [[]]
+    seed_prefixes = set()
     for env in seeds:
         tr = trace_concrete(fn, env)
         if tr:
             stack.append(tr)
+            seed_prefixes.add(tuple(tr))
     results = []
     seen_paths = set()
     truncated = False
@@ -837,7 +847,9 @@ def explore(fn, max_paths=500, verbose=False, on_path=None, seeds=()):
             )
         if on_path is not None:
             on_path(p)
-        for i in range(len(prefix), len(trace)):
+        # alternatives of a seed path are scheduled for all of its decisions (it was not reached through its ancestors)
+        sched_from = 0 if tuple(prefix) in seed_prefixes else len(prefix)
+        for i in range(sched_from, len(trace)):
             cond, val, forced = trace[i]
             if forced:
                 continue
